@@ -506,6 +506,7 @@ static void agg_report(Bank<T>& B, int r, const std::string& line) {
     std::ostringstream os;
     os << "count=" << g.count() << " mean=" << g17(g.mean()) << " nvar=" << g17(g.nvar_)
        << " min=" << g17(static_cast<double>(g.min())) << " max=" << g17(static_cast<double>(g.max()))
+       << " var0=" << g17(g.variance(0)) << " var1=" << g17(g.variance(1)) << " span=" << (g.count() ? g17(static_cast<double>(g.span())) : std::string("-"))
        << " scale=" << g17(static_cast<double>(sq));
     vh::answer(os.str());
     // direct oracle: one Aggregate fed with all values == definition over the multiset
